@@ -60,7 +60,8 @@ def property_checks(inp):
 
 
 def gen_input(rng):
-    N = rng.choice([2, 4, 6, 8, 16, 32])
+    # grid sizes: small and round ones, any size up to 80, and the FFT-unfriendly even sizes (2 x prime > 11)
+    N = rng.choice([rng.choice([2, 4, 6, 8, 16, 32]), rng.choice([2, 4, 6, 8, 16, 32]), rng.randint(2, 80), rng.choice([26, 34, 38, 46, 58, 62, 74])])
     wvl = rng.uniform(0.4e-6, 2e-6); d1 = oc.gen_spacing(rng, wvl)
     return {"N": N, "wvl": wvl, "d1": d1, "mag": rng.choice([1.0, oc.gen_mag(rng), oc.gen_mag(rng), 2.0, 0.5]),
             "z": rng.choice([-1, 1]) * rng.loguniform(0.05, 50.0) * (N * d1 * d1 / wvl),
